@@ -15,7 +15,8 @@ def run(ctx):
     ctx.assumptions += ['projection trusted; registry emptiness is an auxiliary observation of fst_core._MODIFYING; the '
                         'verdict also rests on the public next-edit-succeeds-and-syncs clause']
     ctx.model('RegistryMC', 'RegistryMC', required=('Enter', 'Success', 'Fault', 'Fail', 'Catch'))
-    n_hist, n_steps = (1600, 10) if ctx.quick else (32000, 20)
+    editcheck.run_sweep(ctx, per_template=20 if ctx.quick else 0, n_arg=150 if ctx.quick else 0, props=PROPS)
+    n_hist, n_steps = (1300, 10) if ctx.quick else (32000, 20)
     specs = editcheck.history_specs(ctx, n_hist, n_steps)
     res = editcheck.generate(ctx, specs, mode='failing')
     val = editcheck.validate_all(ctx, res)
